@@ -8,6 +8,7 @@ import (
 	"math"
 	"strconv"
 	"strings"
+	"testing/iotest"
 
 	"github.com/polydawn/refmt/cbor"
 	"github.com/polydawn/refmt/tok"
@@ -39,6 +40,11 @@ func driveSource(src tokenSource, budget int) (class string, toks []string, err 
 	// the tokens are kept as they were handed out and only looked at when the run is over, as a consumer
 	// collecting them would: a byte-string token must not be a view of a buffer the decoder reuses
 	var slot tok.Token
+	if _, isCbor := src.(*cbor.Decoder); isCbor {
+		// the slot is the caller's and may hold anything from earlier use (a pump reuses one slot; a consumer reading item
+		// after item does too): a decoder that has tags says for every token whether it carries one
+		slot = tok.Token{Type: tok.TString, Str: "stale", Bytes: []byte("stale"), Length: 7, Int: 7, Uint: 7, Float64: 7, Bool: true, Tagged: true, Tag: 77}
+	}
 	var kept []tok.Token
 	render := func() []string {
 		out := make([]string, len(kept))
@@ -72,11 +78,29 @@ func runCborDec(payload string) string {
 		}
 	}
 	rd := bytes.NewReader(in)
-	dec := cbor.NewDecoder(cbor.DecodeOptions{CoerceUndefToNull: coerce}, rd)
+	// an optional third field picks how the bytes are delivered (the verdict must not depend on it)
+	var src io.Reader = rd
+	via := ""
+	if len(fs) > 2 {
+		via = fs[2]
+	}
+	switch via {
+	case "one":
+		src = iotest.OneByteReader(rd)
+	case "half":
+		src = iotest.HalfReader(rd)
+	case "dataerr":
+		src = iotest.DataErrReader(rd)
+	}
+	dec := cbor.NewDecoder(cbor.DecodeOptions{CoerceUndefToNull: coerce}, src)
 	class, toks, err := driveSource(dec, 2*len(in)+10)
 	switch class {
 	case "ok":
-		return fmt.Sprintf("ok %d %s", len(in)-rd.Len(), strings.Join(toks, " "))
+		consumed := len(in) - rd.Len()
+		if via == "dataerr" {
+			consumed = dec.VerifNumRead() // this reader reads ahead of what it hands out
+		}
+		return fmt.Sprintf("ok %d %s", consumed, strings.Join(toks, " "))
 	case "err":
 		return fmt.Sprintf("err %s %d", errClass(err), len(toks))
 	}
